@@ -8,6 +8,7 @@ IDS="${*:-$(ls seeded | grep -E '^C[0-9]+-')}"
 for id in $IDS; do
   P="${id%%-*}"
   [ "$id" = "C07-2B" ] && P="C07,C15"
+  [ "$id" = "C07-5A" ] && P="C07,C20"
   out="$(tools/run_mutant.sh "seeded/$id/patch.diff" "$P" quick 2>&1)"
   if echo "$out" | grep -q '^KILLED'; then echo "$id $(echo "$out" | grep '^KILLED' | head -1 | cut -c1-200)"; else echo "$id $(echo "$out" | tail -1 | cut -c1-200)"; fi
 done
